@@ -248,6 +248,41 @@ CHECKS = {
              "generic bodies, statics shared between instantiations). Generic enums/impls only via Option/Result (C13).",
         technique="Lean 4 proof (cache-key injectivity, cache transparency) + translator-regenerated tables with decide obligations + metamorphic correspondence (generic vs hand-specialised twin, twin vs CbRef)",
         ref="DESIGN.md §6 C11, §11"),
+    "C14": dict(
+        text="Lean 4 theorems (CbProps/C14.lean) on the scheduler machine CbModel/Sched.lean (small-step model of the event "
+             "loop with an explicit control stack: nested wait loops of `await`, one pop after every statement of a function "
+             "body, per-task statement index and loop iteration): task_output_in_program_order (in EVERY reachable state, "
+             "whatever the other tasks and the interleaving, the lines a task has printed are exactly those of the statements "
+             "before its current one, each once, in order, plus the completed iterations of the loop it is in), "
+             "finished_task_printed_whole_body, finished_is_final, await_in_task/main_delivers_result. Tie: (A) random programs "
+             "of the modelled fragment — stdout (task lines and awaited values) equals the model's; the model is validated "
+             "event-by-event against hook H3 by C15; (B) 1-3 tasks with parameters and locals whose structured bodies place "
+             "`yield` by 15 features (top level, in for / while / if / else / block, nested loops, same counter name, changing "
+             "condition, early return ...): each task's projection of stdout and its awaited result must equal a direct "
+             "sequential evaluation of its body (running it alone).",
+        note="The theorems are about the modelled fragment (suspension at top-level statements and top-level loop iterations, "
+             "spawn DAGs, awaits of own children); suite B carries the rest of the quantifier and finds 3 classes of violations "
+             "on the pinned tree (listed findings: yield in nested blocks skips the rest of the block, loop state across "
+             "suspensions, conditions re-evaluated on resume) plus a 4th found through the model (await gives up while the "
+             "awaited task is on the C++ stack). Awaited values are ints.",
+        technique="Lean 4 proof (per-task output invariant over all reachable states of a small-step scheduler model) + trace-validated model + differential / metamorphic correspondence on generated task sets",
+        ref="DESIGN.md §6 C14, §11.4"),
+    "C15": dict(
+        text="Lean 4 theorems (CbProps/C15.lean) on the same scheduler machine: reach_inv (every reachable state: ready queue "
+             "duplicate-free, only valid unfinished ids, running tasks not queued), deterministic, queue_fifo (a transition "
+             "only appends to the back, removes the head, or rotates a blocked head to the back), no_overtaking (b never gets "
+             "its turn before an a that is ahead of it), suspended_goes_to_back, awaiting_task_not_scheduled, "
+             "wait_ends_when_target_finished (or the queue ran empty), sleep_never_early. Obligation (decide) on the deadline "
+             "test and deadline computation regenerated from simple_event_loop.cpp / call_impl.cpp on every run. Tie: hook H3: "
+             "the interpreter's scheduler trace, including the queue snapshot at every run_one_cycle, must equal the model's "
+             "event list step for step, and stdout the model's output, on an exhaustive family of small task sets and on random "
+             "task programs (each run twice: determinism); sleep programs over a grid of durations check elapsed >= ms with "
+             "now() and that a worker task keeps running meanwhile.",
+        note="run_one_cycle gives ONE task a turn; round robin emerges from the FIFO rotation — which is what the theorems "
+             "state. Fairness is proved for the model's queue discipline, not for wall-clock time. Sleep is judged by "
+             "inequalities only.",
+        technique="Lean 4 proof (invariants and FIFO laws of a small-step scheduler model) + translator-regenerated deadline test with a decide obligation + step-for-step trace correspondence through hook H3",
+        ref="DESIGN.md §6 C15, §11.4"),
     "C18": dict(
         text="Lean 4 theorems (CbProps/C18.lean) on a mechanism model of handle_import_statement (CbModel/Imports.lean: set of "
              "loaded module paths + one global table, importing an unloaded module registers exactly its exported items, later "
